@@ -133,7 +133,8 @@ def compare_molecule(mol, rm, radicals=(), maps_kept=None):
         if a.charge != ra.charge:
             out.append(('atoms.charge', f'atom {i}: {a.charge} != {ra.charge}'))
         if ra.bracket and a.implicit_hydrogens != ra.hcount and mism.get(n) != ra.hcount:
-            out.append(('atoms.hcount', f'atom {i} [{ra.element}]: implicit_hydrogens {a.implicit_hydrogens} (mismatch note {mism.get(n)}) != {ra.hcount}'))
+            ctx = 'cx-radical-atom' if i in radicals else 'plain'
+            out.append((f'atoms.hcount:{ctx}', f'atom {i} [{ra.element}]: implicit_hydrogens {a.implicit_hydrogens} (mismatch note {mism.get(n)}) != {ra.hcount}'))
         if maps_kept is None:  # molecule rule: first occurrence of a class keeps it as atom number, others numbered above the maximum
             if ra.amap and ra.amap not in seen_maps:
                 seen_maps.add(ra.amap)
@@ -159,7 +160,8 @@ def compare_molecule(mol, rm, radicals=(), maps_kept=None):
     else:
         for k, o in rm.bonds.items():
             if got[k] != o:
-                ctx = 'aromatic-ends' if rm.atoms[k[0]].aromatic and rm.atoms[k[1]].aromatic else 'other'
+                ctx = ('aromatic-ends' if rm.atoms[k[0]].aromatic and rm.atoms[k[1]].aromatic else 'other') + '/' + rm.binfo[k][0] + \
+                    ('/ring-closure' if rm.binfo[k][1] else '/chain')
                 out.append((f'bonds.order:{ctx}', f'bond {k}: {got[k]} != {o}'))
     comps = {frozenset(idx[n] for n in c) for c in mol.connected_components}
     if comps != set(rm.components()):
@@ -234,6 +236,8 @@ def compare(obj, rec):
             rad = {a for (p, a) in rec.radicals if p == pos}
             out.extend((f'rxn.{asp}', f'{name}[{j}] {d}') for asp, d in compare_molecule(m, rm, rad, maps[k][j]))
             pos += 1
+    if rec.groups:
+        out = [(a + ':cx-groups', d) for a, d in out]
     return out
 
 
@@ -268,7 +272,8 @@ def rdkit_opinion(smi, rm):
     for b in rd.GetBonds():
         i, j = b.GetBeginAtomIdx(), b.GetEndAtomIdx()
         got[(i, j) if i < j else (j, i)] = _RD_ORDER.get(str(b.GetBondType()), -1)
-    if got != rm.bonds:
+    # the dialect bond '~' (order 8) is not standard SMILES: pairs compared, order not
+    if set(got) != set(rm.bonds) or any(got[k] != o for k, o in rm.bonds.items() if o != 8):
         out.append(('bonds', f'rdkit {sorted(got.items())} reference {sorted(rm.bonds.items())}'))
     return out, rd
 
@@ -404,6 +409,8 @@ class _Acc:
             if keep_key:
                 self.keys.append(s)
             self.stat['accepted:' + fam] = self.stat.get('accepted:' + fam, 0) + 1
+            if fam == 'no-rdkit':
+                self._push(self.odd, 'rdkit:declined', s, 'accepted by chython and the reference, RDKit returns None')
             if len(self.samples) < 2 and len(s) > 6:
                 self.samples.append({'input': s, 'outcome': 'agrees with reference reader' + (' and RDKit' if fam == 'rdkit' else '')})
         else:
